@@ -15,8 +15,10 @@ Tolerance model (all errors are normalised: position by a(1+e), velocity by the 
   smallest |sin| of the angles that code path extracts (observed error*s <= 1.1e-15, i.e. 10x margin; the cap 1e-6 is
   25x the observed worst case 4e-8 and 5 orders below a quadrant slip, which is O(1)).
 * designed classification error: an orbit the library classifies circular (e < 1e-7) loses its perigee direction
-  (error <= 2e), one it classifies equatorial loses its node (<= 2 i'); these are added where the classification is
-  (or, within 5e-3 relative of the limit / inside the arccos resolution 1e-7 rad of i = 0, pi, may be) singular.
+  (error <= 2e) and its anomalies are passed through as nu = E = M (<= 2e along track), together <= sqrt(8) e: 3e is
+  allowed; one it classifies equatorial loses its node (<= 2 i', 2.2 i' allowed); these are added where the
+  classification is (or, within 5e-3 relative of the limit / inside the arccos resolution of i = 0, pi, may be) singular.
+  The largest allowance, 3e-7 of a (15 m at 50000 km), is 6 orders below a quadrant slip.
 * equinoctial elements next to their own singular side (retro=False near pi, retro=True near 0): 1 + I cos(i) carries
   one ulp of absolute error, i.e. a relative error 2.2e-16/(1 + I cos i) ~ 4.4e-16/i'^2 in p, q and 4.4e-16/i' rad in
   the plane; 10x that is added.  i' < 1e-6 on that side is the documented EQE singularity and is excluded.
@@ -51,7 +53,10 @@ RULE = (
     "orbit lattice: every (a, e, i, raan, argp, nu) of the announced product (e straddling the 1e-7 circularity limit, "
     "i straddling the 1e-7 deg equatorial limit at both ends and i = 0, pi; each angle with 0, a seam neighbour, 180 deg "
     "and one seed-phased interior value per quadrant) is converted by every function of conversions.py / elements.py / "
-    "state_config.py and compared with the textbook reference; anomaly lattice: every (anomaly, e) / (longitude, h, k) "
+    "state_config.py and compared with the textbook reference (the thin class wrappers EquinoctialElements.fromECI/"
+    "fromCOE, ClassicalElements.fromEQE and EQEStateConfig on the even checkerboard of the angle indices, everything else "
+    "on every point; the retrograde equinoctial family for i >= 90 deg in the quick tier, over its whole domain in the "
+    "thorough tier); anomaly lattice: every (anomaly, e) / (longitude, h, k) "
     "pair through all ten anomaly conversions and both Kepler solvers; singularityCheck, utils helpers and the "
     "classification predicates on their own lattices. non-trivial orbit point = e or min(i, pi-i) within a factor 2 of "
     "its limit, or i in {0, pi}, or an angle on a quadrant edge / within 0.001 deg of the seam (counted once per point, "
@@ -86,14 +91,18 @@ SMA_Q = [6600.0, 50000.0]  # the ends of the quantified range; 26560 km carries 
 SMA_T = [6600.0, 7000.0, 26560.0, 42164.0, 50000.0]
 SMA_FULL_T = (26560.0,)  # thorough: the 9-value angle product; the other four carry the 7-value (quick) product
 ECC = [0.0, 0.99e-7, 1e-7, 1.01e-7, 1e-6, 0.01, 0.3, 0.7, 0.89]
+ECC_Q_SECOND = (0.0, 1.01e-7, 0.3, 0.89)
 ECC_T_EXTRA = [0.5e-7, 2e-7, 0.1, 0.8999]
 
 
 def _inc_alphabet(tier):
     L = INC_LIM
-    incs = [0.0, 0.5 * L, 0.99 * L, L, 1.01 * L, 1e-6, math.radians(28.5), 0.5 * PI, math.radians(150.0),
-            PI - 1e-6, PI - 1.01 * L, PI - L, PI - 0.5 * L, PI]
+    incs = [0.0, 0.99 * L, L, 1.01 * L, 1e-6, math.radians(28.5), 0.5 * PI, math.radians(150.0),
+            PI - 1e-6, PI - 1.01 * L, PI - L, PI - 0.99 * L, PI]
+    if tier == "full":  # the singularityCheck lattice: also half the limit
+        incs += [0.5 * L, PI - 0.5 * L]
     if tier == "thorough":
+        incs += [0.5 * L, PI - 0.5 * L]
         # inside the arccos resolution of Cartesian extraction (classification either-way there), and a regular fill
         incs += [5e-9, 1.2e-8, 3e-8, PI - 3e-8, PI - 1.2e-8, PI - 5e-9, 2.0 * L, PI - 2.0 * L,
                  1e-3, math.radians(63.4), math.radians(116.6), PI - 1e-3]
@@ -147,6 +156,8 @@ def items(tier, seed):
     for a in _smas(tier):
         full = tier == "quick" or a in SMA_FULL_T
         for e in _eccs(tier):
+            if tier == "quick" and a != SMA_Q[0] and e not in ECC_Q_SECOND:
+                continue  # quick: the second semi-major axis (pure scale) carries one e per class
             for inc in incs:
                 if full:
                     out.append(("orbit", a, e, inc, ra, ap, nu, tier == "thorough"))
@@ -159,7 +170,7 @@ def items(tier, seed):
         out.append(("longitude", e, anoms[:: (2 if tier == "quick" else 1)], [0.0, 180.0, _phase(seed, 14), 90.0 + _phase(seed, 15), 180.0 + _phase(seed, 16), 270.0 + _phase(seed, 17)]))
     sing_angles = sorted(set(ra + [-30.0, 400.0]))
     for e in (0.0, 0.5e-7, 0.99e-7, 1e-7, 1.01e-7, 0.3):
-        for inc in _inc_alphabet("quick"):
+        for inc in _inc_alphabet("full"):
             out.append(("singularity", e, inc, sing_angles if tier == "thorough" else sing_angles[:9]))
     for e in (1e-6, 0.01, 0.3, 0.89):
         for inc in (1e-6, math.radians(28.5), 0.5 * PI, math.radians(150.0), PI - 1e-6):
@@ -174,6 +185,8 @@ def bounds(tier, seed):
     ra, ap, nu = _angles(tier, seed)
     return {
         "sma_km": _smas(tier),
+        "sma_note": "quick: 6600 km with every e, 50000 km with e in %s; thorough: 26560 km with the 9-value angle "
+                    "product, the other four with the 7-value product" % (list(ECC_Q_SECOND),),
         "ecc": _eccs(tier),
         "inc_rad": _inc_alphabet(tier),
         "raan_deg": ra,
